@@ -33,7 +33,7 @@ MUTATING = {"update", "append", "add", "extend", "setdefault", "pop", "clear", "
 def run(ctx):
     repo = ctx.repo
     res = Result(PROP)
-    res.rules = ["E-TYPE", "E-FOOT", "E-ALIAS", "E-LOOPALIAS"]
+    res.rules = ["E-TYPE", "E-REJECT", "E-FOOT", "E-ALIAS", "E-LOOPALIAS"]
     res.explanation = (
         "Narrow claim. Raise sites of the three class bodies are classified by their guard and the raised class is "
         "resolved; removals keyed by parameters are checked for a dominating membership test or a converting handler; "
@@ -223,12 +223,14 @@ def check_removals(repo, res, m):
 def check_table_removals(repo, res, ctx):
     """E-TYPE(b) on stored member sets: a `.remove(x)` that the incidence walker cannot justify by a membership
     guard or by iteration over the dual side would surface a bare KeyError for a missing ID."""
-    from ..incidence import Infeasible, MethodAnalysis, Unsupported
+    from ..incidence import Infeasible, MethodAnalysis, Unsupported, compatible
     from ..paths import valuations
-    from .incidence_rules import COARSE, direct_writer_methods
+    from ..selectors import inline_selectors
+    from .incidence_rules import COARSE, direct_writer_methods, helper_postcondition
 
     eng = Effects(repo)
     n = 0
+    n_rej = [0]
     for cname in CORE_CLASSES:
         directed = cname == "DiHypergraph"
         direct, indirect = direct_writer_methods(repo, eng, cname)
@@ -238,14 +240,30 @@ def check_table_removals(repo, res, ctx):
                 continue
             if ctx.only and ctx.only != fi.qualname:
                 continue
+            fi = inline_selectors(repo, fi)
             par = _parents(fi.node)
             seen = set()
+            seen_rej = set()
             for val in valuations(fi.node, with_strings=True):
-                ma = MethodAnalysis(repo, fi, directed, val, writer_methods=writers)
+                ma = MethodAnalysis(repo, fi, directed, val, writer_methods=writers, cname=cname)
+                ma.helper_post = lambda m, cname=cname, writers=writers, directed=directed: helper_postcondition(repo, cname, m, directed, writers)
                 try:
                     ma.run()
                 except (Infeasible, Unsupported):
                     continue
+                # ---- E-REJECT: an explicit rejection (raise statement) comes before any write of the same item
+                evs = [e for e in ma.events if e.rel != "CALL"]
+                for rp in ma.raises:
+                    if rp.kind != "explicit raise" and "explicit raise" not in rp.text:
+                        continue
+                    line = getattr(rp.stmt, "lineno", 0)
+                    prior = [e for e in evs if e.order < rp.order and compatible(e.conds, rp.conds) and e.loops[: len(rp.loops)] == rp.loops]
+                    n_rej[0] += 1
+                    res.inst("E-REJECT", f"{fi.qualname}:{line} `{unparse(rp.stmt, 50)}` is reached before any table write of the rejected item", not prior)
+                    if prior and line not in seen_rej:
+                        seen_rej.add(line)
+                        w = prior[0]
+                        res.add(mk_finding(PROP, "E-REJECT", fi, rp.stmt, f"{fi.qualname}: `{unparse(rp.stmt, 60)}` rejects the input after `{unparse(w.stmt, 60)}` (line {getattr(w.stmt, 'lineno', 0)}) has already been applied; the rejected edit leaves part of itself in the network (the documentation describes an error, not a partial edit)", role="reject"))
                 for rp in ma.raises:
                     if "removal of an element not known to be present" not in rp.text:
                         continue
@@ -267,6 +285,8 @@ def check_table_removals(repo, res, ctx):
                     if not converted:
                         res.add(mk_finding(PROP, "E-TYPE", fi, rp.stmt, f"{fi.qualname}: `{unparse(rp.stmt, 60)}` removes an ID from a plain set although nothing establishes that it is there (no membership guard, not obtained from the dual side); a missing ID surfaces as a bare KeyError instead of the library's error", role="remove"))
             res.inst("E-TYPE", f"{cname}.{mname}: removals on stored member sets are justified", True)
+    if not ctx.only:
+        res.floor("explicit rejection points in the mutators (method x valuation)", n_rej[0], 100)
     return n
 
 
